@@ -164,6 +164,16 @@ def clause_permissions(prog, rep):
     rep.floor("permissions", "public MdkSqliteStorage constructors", len(news), 3)
     mp = A.MustPass(prog, lambda c: c.name == "set_permissions")
     pp = A.MustPass(prog, lambda c: any(t.name == "precreate_secure_database_file" for t in prog.call_targets(c)))
+    # the function that restricts the main file *and* its sidecars (recognised by the sidecar suffix constants it handles)
+    perm_fns = set(g.path for g in prog.nontest_fns(SQ) if not g.is_closure() and {"-wal", "-shm", "-journal"} <= set(x for _, x in g.str_consts())
+                   and A.ReachCache(prog, lambda c: c.name == "set_permissions").fn(g.path))
+    rep.floor("permissions", "function restricting the database file and its sidecars", len(perm_fns), 1)
+    ap = A.MustPass(prog, lambda c: any(t.path in perm_fns for t in prog.call_targets(c)))
+    for f in news:
+        rep.check(ap.fn(f), "permissions", "%s/restrict-on-every-open" % f.name,
+                  "every successful open re-applies owner-only permissions to the database file and its sidecars (also when the file already existed)",
+                  "constructor %s can succeed without restricting the permissions of the database file / sidecars (e.g. when the file already "
+                  "existed): a database restored or pre-created with loose permissions stays readable by others" % f.name, f.loc())
     for f in news:
         rep.check(pp.fn(f), "permissions", "%s/precreate" % f.name, "every Ok path of the constructor pre-creates the file securely",
                   "constructor %s can succeed without the secure pre-creation step" % f.name, f.loc())
@@ -218,6 +228,12 @@ def clause_keyring(prog, rep):
         rep.check(any(True for _ in f.aggregates("Error", "UnencryptedDatabaseWithEncryption")) and any(True for _ in f.aggregates("Error", "KeyringEntryMissingForExistingDatabase")),
                   "keyring", "existing-file-errors", "missing entry for an existing file is refused (plain file and encrypted file told apart)",
                   "the existing-file errors are no longer produced", f.loc())
+    # opening a database never deletes a keyring entry ("created once and reused")
+    dele = A.ReachCache(prog, lambda c: c.name in ("delete_credential", "delete_password", "delete_secret") or
+                        any(t.name == "delete_db_key" for t in prog.call_targets(c)))
+    for f in [g for g in prog.nontest_fns(SQ) if last_seg(g.self_adt) == "MdkSqliteStorage" and g.is_pub() and g.name.startswith("new")]:
+        rep.check(not dele.fn(f.path), "keyring", "%s/never-deletes-key" % f.name, "opening a database never deletes a keyring entry",
+                  "constructor %s can delete the stored database key: a key already in use by an existing database is thrown away and regenerated" % f.name, f.loc())
     # only the unencrypted constructor passes None as key
     none_callers = []
     for f in prog.nontest_fns(SQ):
